@@ -72,7 +72,7 @@ PLANTS = {
 }
 RUNS = ['ok', 'ok_result_dir', 'ok_csc', 'ok_summary', 'fail_markers',
         'fail_negative', 'fail_worker', 'fail_corrupt_query',
-        'fail_unwritable_output']
+        'fail_unwritable_output', 'fail_csc_no_shape']
 
 
 def bounds(tier):
@@ -153,6 +153,14 @@ class World(object):
         raw = pathlib.Path(self.q_raw).read_bytes()
         self.q_trunc = self.in_dir / 'truncated.h5ad'
         self.q_trunc.write_bytes(raw[:len(raw) // 2])
+        # a CSC query whose transcription to CSR cannot be done
+        self.q_csc_bad = self.in_dir / 'csc_no_shape.h5ad'
+        shutil.copy(self.q_csc, self.q_csc_bad)
+        import h5py
+        with h5py.File(self.q_csc_bad, 'a') as f:
+            for k in ('shape', 'h5sparse_shape'):
+                if k in f['X'].attrs:
+                    del f['X'].attrs[k]
         self.inputs = snapshot(self.in_dir)
         self.planted_scr = {}
         self.planted_res = {}
@@ -180,7 +188,7 @@ class World(object):
         config['csv_result_path'] = str(self.out / 'out.csv')
         config['hdf5_result_path'] = str(self.out / 'out.h5')
         config['log_path'] = str(self.out / 'log.txt')
-        if flavour == 'ok_result_dir':
+        if flavour in ('ok_result_dir', 'fail_csc_no_shape'):
             config['tmp_dir'] = None
             config['extended_result_dir'] = str(self.res)
         else:
@@ -209,6 +217,11 @@ class World(object):
             # a truncated copy of the query: the run fails AND the output
             # stage of the run (which re-reads the query) fails
             qpath = self.q_trunc
+        elif flavour == 'fail_csc_no_shape':
+            # no scratch directory of its own: whatever the row iterator
+            # creates lands in the default temporary directory
+            qpath = self.q_csc_bad
+            cfg['encoding'] = 'csc'
         elif flavour == 'fail_unwritable_output':
             def extra(c):
                 c['extended_result_path'] = str(
@@ -644,6 +657,78 @@ def evaluate_validate(case, scratch):
                     'key': 'file-outside-requested-locations',
                     'msg': f'{what}: output directory holds {outs}'})
             keys.append(what)
+    # ---- histories of two validations writing to ONE fixed output path:
+    # what is there afterwards (and what is returned) must be what the
+    # second validation alone produces in a fresh directory
+    from cell_type_mapper.cli.cli_log import CommandLog
+    import itertools
+
+    def make_input(name, needs_change):
+        src = d / name
+        mat = np.array([[1.0, 0.0, 2.5 if needs_change else 2.0],
+                        [0.0, 3.0, 0.0]])
+        genes = (['ENSMUSG00000000001', 'symb1', 'zz'] if needs_change
+                 else ['ENSMUSG00000000001', 'ENSMUSG00000000002',
+                       'ENSMUSG00000000003'])
+        sparsegen.write_h5ad(src, mat, 'dense', var_ids=genes)
+        return src
+
+    def one(src, out_path, tmp, with_log):
+        mapper = GeneIdMapper(data={'symb1': 'ENSMUSG00000000009'})
+        res = validate_h5ad(h5ad_path=src, gene_id_mapper=mapper,
+                            tmp_dir=tmp, round_to_int=True,
+                            valid_h5ad_path=out_path,
+                            log=CommandLog() if with_log else None)
+        path = res[0] if isinstance(res, tuple) else res
+        listing = sorted(snapshot(out_path.parent))
+        content = None
+        if out_path.exists():
+            try:
+                content = sparsegen.read_x_dense(out_path).tolist()
+            except Exception:
+                content = 'unreadable'
+        return (path is None, listing, content)
+
+    hi = 0
+    for first, second, with_log in itertools.product(
+            (True, False, 'plant'), (True, False), (True, False)):
+        hi += 1
+        what = (f'validate_h5ad to a fixed valid_h5ad_path: first '
+                f'{"a planted stale file" if first == "plant" else "an input with needs_change=" + str(first)}'
+                f', then needs_change={second}, log object '
+                f'{"given" if with_log else "None"}')
+        try:
+            shared = d / f'hist_{hi}'
+            fresh = d / f'fresh_{hi}'
+            tmp = d / f'htmp_{hi}'
+            for x in (shared, fresh, tmp):
+                x.mkdir()
+            if first == 'plant':
+                (shared / 'validated.h5ad').write_text('stale')
+            else:
+                one(make_input(f'h{hi}_a.h5ad', first),
+                    shared / 'validated.h5ad', tmp, with_log)
+            src2 = make_input(f'h{hi}_b.h5ad', second)
+            got = one(src2, shared / 'validated.h5ad', tmp, with_log)
+            exp = one(src2, fresh / 'validated.h5ad', tmp, with_log)
+        except Exception as e:
+            violations.append({'key': 'stage-failed',
+                               'msg': f'{what}: {type(e).__name__}: {e}'})
+            continue
+        finally:
+            from mc import common
+            common.close_leaked_h5()
+        n += 2
+        if got != exp:
+            violations.append({
+                'key': 'result-depends-on-stale-files',
+                'msg': f'{what}: (no output returned, listing, X) = {got} '
+                       f'but in a fresh directory {exp}'})
+        if snapshot(tmp):
+            violations.append({'key': 'scratch-left-behind',
+                               'msg': f'{what}: scratch left '
+                                      f'{sorted(snapshot(tmp))}'})
+        keys.append(what)
     return {'violations': violations, 'keys': keys, 'evaluations': n,
             'outcomes': ['validate'], 'states': n, 'transitions': n,
             'traces': n, 'sample': {'stage': 'validate_h5ad', 'runs': n}}
